@@ -13,10 +13,10 @@ extern "C" __attribute__((used, visibility("default"))) const char* __ubsan_defa
 }
 
 namespace sim { long long g_global_new_live = 0; int g_track_global_new = 0; long long g_tracked_global_live = 0;
-  static const size_t TRACK_SLOTS = 1 << 18; static void* g_tracked[TRACK_SLOTS];
+  static const size_t TRACK_SLOTS = 1 << 18; static void* g_tracked[TRACK_SLOTS]; static size_t g_tombstones = 0;
   static inline size_t track_slot(void* p) { return (reinterpret_cast<uintptr_t>(p) >> 4) * 0x9E3779B97F4A7C15ULL >> (64 - 18); }
   static inline void track_add(void* p) { size_t i = track_slot(p); for (size_t n = 0; n < TRACK_SLOTS; n++, i = (i + 1) & (TRACK_SLOTS - 1)) if (g_tracked[i] == nullptr || g_tracked[i] == reinterpret_cast<void*>(1)) { g_tracked[i] = p; ++g_tracked_global_live; return; } }
-  static inline void track_remove(void* p) { size_t i = track_slot(p); for (size_t n = 0; n < TRACK_SLOTS && g_tracked[i] != nullptr; n++, i = (i + 1) & (TRACK_SLOTS - 1)) if (g_tracked[i] == p) { g_tracked[i] = reinterpret_cast<void*>(1); --g_tracked_global_live; return; } }
+  static inline void track_remove(void* p) { size_t i = track_slot(p); for (size_t n = 0; n < TRACK_SLOTS && g_tracked[i] != nullptr; n++, i = (i + 1) & (TRACK_SLOTS - 1)) if (g_tracked[i] == p) { g_tracked[i] = reinterpret_cast<void*>(1); --g_tracked_global_live; if (++g_tombstones > 4096 && g_tracked_global_live == 0) { std::memset(g_tracked, 0, sizeof(g_tracked)); g_tombstones = 0; } return; } }   // tombstones are swept whenever the table is empty, else probe sequences grow without bound
   static inline void* counted_alloc(std::size_t n) { void* p = std::malloc(n ? n : 1); if (p) { ++g_global_new_live; if (g_track_global_new > 0) track_add(p); } return p; }
   static inline void counted_free(void* p) { if (p) { --g_global_new_live; if (g_tracked_global_live > 0) track_remove(p); std::free(p); } }
 }
